@@ -812,11 +812,12 @@ def decodeConnectivity : DecM Mesh := do
   -- corner_table_->Reset(num_faces, num_encoded_vertices_ + num_encoded_split_symbols)
   let numVerts := (nev + numSplitSymbols) % 2 ^ 32
   require (numVerts < 2 ^ 31)
+  -- the element counts the stream may use to size tables: faces + vertices
+  declare (numFaces + numVerts)
   alloc "corner_table.corner_to_vertex_map" (4 * 3 * numFaces)
   alloc "corner_table.opposite_corners" (4 * 3 * numFaces)
   alloc "corner_table.vertex_corners(reserve)" (4 * numVerts)
   alloc "edgebreaker.is_vert_hole" (numVerts / 8)
-  declare (numFaces + numVerts)
   if numFaces > modelCap || numVerts > 3 * modelCap then
     failWith (.unsupported "edgebreaker: declared size beyond the model's table limit") else
   -- topology split (and hole) events: behind the connectivity data before 2.2
